@@ -242,7 +242,7 @@ theorem C02_no_truncated_as_complete_partial (cfg : Cfg) (es : List Ev)
   (kinv_run cfg es Stream.init htame kinv_init).k4 bs h
 
 /-- The excluded point really fails in the model (as it does in the code, finding
-    F24): `Content-Length` + `Connection: close`, the backend closes mid-body,
+    class `eof-completes-short-length-body-then-408`): `Content-Length` + `Connection: close`, the backend closes mid-body,
     `terminate_close_delimited` marks the short body Terminated and
     `end_stream_decision` forwards it as a complete response. -/
 theorem C02_no_truncated_as_complete_counterexample :
@@ -280,7 +280,7 @@ theorem C02_outcome_shape_partial (cfg : Cfg) (s : Stream) (e : Ev) (h : Settled
     (ho : (step cfg s e).outcome = some o) : Shape o :=
   settled_shape cfg s e h hpe o ho
 
-/-- Excluded point 1 fails in the model (and in the code, finding F26): a partial
+/-- Excluded point 1 fails in the model (and in the code, finding `unflushed-response-dropped-silent-close`): a partial
     keep-alive response is still unwritten when the backend connection dies —
     `forcefully_terminate_answer` drops it and the client is given nothing at all. -/
 theorem C02_outcome_shape_counterexample_silent_abort :
@@ -291,7 +291,7 @@ theorem C02_outcome_shape_counterexample_silent_abort :
   · decide
   · simp [Shape]
 
-/-- Excluded point 2 fails in the model (and in the code, finding F27): the head of a
+/-- Excluded point 2 fails in the model (and in the code, finding `default-answer-written-into-started-response`): the head of a
     chunked `Connection: close` response was written, the backend closes mid-body, the
     buffer goes to the error phase and `end_stream_decision` answers 502 into the
     response that had already started. -/
